@@ -8,6 +8,8 @@ open Mtbl_model
 type string = Stdlib.String.t
 
 external c_heap_in_use : unit -> int64 = "vp_heap_in_use"
+external c_fileset_partition : nativeint -> int -> nativeint * nativeint = "vp_fileset_partition"
+external c_source_write : nativeint -> nativeint -> bool = "vp_source_write"
 
 let engine = "lk"
 let rule = "scenarios (parameters drawn per case): writers (pooled or not, refused adds, zero-thread pool), readers of tables and of non-table files, iterators of every kind abandoned before they are drained, mergers over several readers with undrained iterators, sorters with 1..n chunks (pooled or not) destroyed before iteration / after iteration / while chunk jobs are in flight / after a failing merge callback / after sorter_write into a writer that refuses the first key, filesets with dups, reloads and undrained iterators, thread pools shared by several users. Observed after every step: descriptors, mappings, temp files, threads; at the end: heap growth over repeated runs. Non-trivial: every scenario; distinct by (scenario, parameters)."
@@ -265,7 +267,80 @@ let sc_fileset_long c =
   Fs.c_fileset_destroy f; destroy c fid; Mg.c_merge_clos_free mc;
   observe c "fileset_destroy" ~threads_exact:true
 
-let scenarios = [| ("writer", sc_writer); ("reader", sc_reader); ("merger", sc_merger); ("sorter", sc_sorter); ("fileset", sc_fileset); ("sorter_final_flush_fails", sc_sorter_final_flush_fails); ("sorter_write_refused", sc_sorter_write_refused); ("fileset_long", sc_fileset_long) |]
+(* writers created through a path: fresh path (one descriptor while alive), an existing path (refused: nothing
+   stays open), a reader of a missing path (NULL) *)
+let sc_writer_path c =
+  let path = Filename.concat c.dir "wp.mtbl" in
+  (try Sys.remove path with _ -> ());
+  let w = Wr.c_writer_init path in
+  let wid = create c (KWriter false) in
+  observe c "writer_init(path)" ~threads_exact:true;
+  for i = 0 to rrange c.st 0 300 do ignore (Wr.c_writer_add w (Printf.sprintf "k%04d" (if rint c.st 6 = 0 then 1 else i)) (String.make (rint c.st 100) 'v')) done;
+  let w2 = Wr.c_writer_init path in                     (* the path exists now: refused *)
+  if w2 <> 0n then Wr.c_writer_destroy w2;
+  observe c "writer_init(existing path, refused)" ~threads_exact:true;
+  Wr.c_writer_destroy w; destroy c wid;
+  observe c "writer_destroy" ~threads_exact:true;
+  let r0 = Rd.c_reader_init (Filename.concat c.dir "no-such-file.mtbl") false false in
+  if r0 <> 0n then Rd.c_reader_destroy r0;
+  observe c "reader_init(missing path)" ~threads_exact:true;
+  (* read it back and copy it through mtbl_source_write into a second path-based writer *)
+  let r = Rd.c_reader_init path (rbool c.st) false in
+  let rid = create c (KReader true) in
+  let path2 = Filename.concat c.dir "wp2.mtbl" in
+  (try Sys.remove path2 with _ -> ());
+  let wc = Wr.c_writer_init path2 in
+  let wcid = create c (KWriter false) in
+  if rbool c.st then ignore (Wr.c_writer_add wc "k0100" "blocker");     (* the copy is refused part-way *)
+  ignore (c_source_write (Rd.c_reader_source r) wc);
+  observe c "source_write(reader -> writer)" ~threads_exact:true;
+  Wr.c_writer_destroy wc; destroy c wcid;
+  Rd.c_reader_destroy r; destroy c rid;
+  observe c "destroy" ~threads_exact:true
+
+(* a fileset used through every iterator kind, seeks, and mtbl_fileset_partition *)
+let sc_fileset_kinds c =
+  let names = List.init (rrange c.st 2 5) (fun i -> Printf.sprintf "p%02d.mtbl" i) in
+  List.iter (fun nm -> ignore (mk_table c nm (rrange c.st 1 40))) names;
+  let setfile = Filename.concat c.dir "setk.fileset" in
+  let oc = open_out setfile in List.iter (fun nm -> output_string oc (nm ^ "\n")) names; close_out oc;
+  let mc = Mg.c_merge_clos_new 1 0 in
+  let f = Fs.c_fileset_init setfile 0 mc 0 0 in
+  let fid = create c (KFileset N0) in
+  let src = Fs.c_fileset_source f in
+  let its = [ Rd.c_source_get_prefix src "k00"; Rd.c_source_get_range src "k0001" "k0020"; Rd.c_source_iter src; Rd.c_source_get_prefix src "zz" ] in
+  update c fid (KFileset (n_of_int (List.length names)));
+  observe c "fileset iterators (prefix, range, iter)" ~threads_exact:true;
+  List.iter (fun it -> if it <> 0n then begin
+      for _ = 1 to rint c.st 8 do ignore (Rd.c_iter_next it) done;
+      ignore (Rd.c_iter_seek it (Printf.sprintf "k%04d" (rint c.st 30)));
+      ignore (Rd.c_iter_next it) end) its;
+  let (m1, m2) = c_fileset_partition f (1 + rint c.st 2) in
+  let i1 = Rd.c_source_iter (Mg.c_merger_source m1) and i2 = Rd.c_source_get_prefix (Mg.c_merger_source m2) "k000" in
+  observe c "fileset_partition + iterators" ~threads_exact:true;
+  List.iter (fun it -> if it <> 0n then begin ignore (Rd.c_iter_next it); Rd.c_iter_destroy it end) [ i1; i2 ];
+  Mg.c_merger_destroy m1; Mg.c_merger_destroy m2;
+  List.iter (fun it -> if it <> 0n then Rd.c_iter_destroy it) its;
+  observe c "iterators and partition mergers destroyed" ~threads_exact:true;
+  Fs.c_fileset_destroy f; destroy c fid; Mg.c_merge_clos_free mc;
+  observe c "fileset_destroy" ~threads_exact:true
+
+(* sorter and merger iterators that are sought (forwards, backwards, past the end) and abandoned *)
+let sc_seeks c =
+  let mc = Mg.c_merge_clos_new 1 0 in
+  let s = So.c_sorter_init (if rbool c.st then 1 else 300) c.spill mc 0n in
+  let sid = create c (KSorter (false, N0)) in
+  for i = 0 to rrange c.st 5 80 do ignore (So.c_sorter_add s (Printf.sprintf "k%03d" (rint c.st 50)) (Printf.sprintf "a%d" i)) done;
+  let it = So.c_sorter_iter s in
+  update c sid (KSorter (false, n_of_int (So.c_mkstemp_count ())));
+  observe c "sorter_iter" ~threads_exact:true;
+  List.iter (fun k -> ignore (Rd.c_iter_seek it k); for _ = 1 to rint c.st 4 do ignore (Rd.c_iter_next it) done) [ "k030"; "k010"; "zzz"; ""; "k049" ];
+  observe c "sorter iterator sought 5 times" ~threads_exact:true;
+  if it <> 0n then Rd.c_iter_destroy it;
+  So.c_sorter_destroy s; destroy c sid; Mg.c_merge_clos_free mc;
+  observe c "sorter_destroy" ~threads_exact:true
+
+let scenarios = [| ("writer", sc_writer); ("reader", sc_reader); ("merger", sc_merger); ("sorter", sc_sorter); ("fileset", sc_fileset); ("sorter_final_flush_fails", sc_sorter_final_flush_fails); ("sorter_write_refused", sc_sorter_write_refused); ("fileset_long", sc_fileset_long); ("writer_path", sc_writer_path); ("fileset_kinds", sc_fileset_kinds); ("seeks", sc_seeks) |]
 
 let run_scenario (name : string) (f : ctx -> unit) ~seed ~index : child_end =
   in_child (fun () ->
@@ -289,7 +364,7 @@ let run_scenario (name : string) (f : ctx -> unit) ~seed ~index : child_end =
 let run ~tier ~seed ~only acc =
   let idx = ref 0 in
   let want () = cur_index := !idx; (match only with None -> true | Some i -> i = !idx) in
-  let n = if tier = "thorough" then 1500 else 100 in
+  let n = if tier = "thorough" then 1500 else 132 in
   for i = 0 to n - 1 do
     if want () then begin
       let (name, f) = scenarios.(i mod Array.length scenarios) in
